@@ -249,9 +249,18 @@ def run(chk, replay=None):
 
     # ---- the same verdicts computed from the TEXT inside Coq (parser model + glob/fnmatch models + wild_match/gnu_match):
     #      they must agree with the verdicts computed from the match bits this driver derived with Python's fnmatch
-    TXT_IMPORTS = IMPORTS + ("From WV Require Import C32.FromText.\n"
+    TXT_IMPORTS = IMPORTS + ("From WV Require Import C15.Model C22.VScript C32.FromText.\n"
                              "Definition enco (o : option verdict) : list N := match o with Some v => enc v | None => [9%N] end.\n"
-                             "Definition txt (text : list N) (names : list (list N)) := map (fun n => (enco (wild_version_of text n), enco (gnu_version_of text n))) names.\n")
+                             "(* wild_version_of / gnu_version_of for several names, parsing the text once *)\n"
+                             "Definition txt (text : list N) (names : list (list N)) :=\n"
+                             "  match C22.VScript.parse_version_script any_glob text with\n"
+                             "  | C22.VScript.Ok (C22.VScript.Versions vs) =>\n"
+                             "      map (fun n => (enc (wild_match (map (fun v => node_of C15.Model.globmatch (C22.VScript.vbody v) n) vs)),\n"
+                             "                     enc (gnu_match (map (fun v => node_of C15.Model.fnmatch (C22.VScript.vbody v) n) vs)))) names\n"
+                             "  | _ => map (fun _ => ([9%N], [9%N])) names\n"
+                             "  end.\n"
+                             "Lemma txt_is_version_of text names : txt text names = map (fun n => (enco (wild_version_of text n), enco (gnu_version_of text n))) names.\n"
+                             "Proof. unfold txt, wild_version_of, gnu_version_of, nodes_of_text. destruct (C22.VScript.parse_version_script any_glob text) as [[b|vs]| |]; reflexivity. Qed.\n")
     titems = ["txt [" + "; ".join(str(b) for b in script_text(nodes).encode()) + "] [" + "; ".join("[" + "; ".join(str(b) for b in s_.encode()) + "]" for s_ in SYMS) + "]" for nodes in scripts]
     per = (len(titems) + NCPU - 1) // NCPU or 1
     tbodies = ["Eval vm_compute in [\n" + ";\n".join(titems[k * per:(k + 1) * per]) + "].\n" for k in range(NCPU) if titems[k * per:(k + 1) * per]]
